@@ -188,6 +188,8 @@ def impl_run(cases):
             def at(p, path):
                 for kk in path: p = p[K(kk)]
                 return p
+            # half of the Shared transforms rely on the DEFAULT inverse_fn (the shared node is set to None when inverting - whether it is a leaf or a sub-tree)
+            if (len(w) + len(fr) + sum(w) + sum(fr)) % 2 == 0: return rb.Shared.init(where=lambda p: at(p, w), replace_fn=lambda p: at(p, fr))
             return rb.Shared.init(where=lambda p: at(p, w), replace_fn=lambda p: at(p, fr), inverse_fn=lambda p: None)
         if k == "extend":
             return rb.Extend(base_params=to_jax(d[1]), mask=None)
